@@ -23,8 +23,9 @@ LEVEL_NOTE = ('Trusted: layout map produced by the independent encoder. Allowed:
 ASSUMPTIONS = ['a slice requests the index range [start, stop) it spans (not only the strided elements)']
 
 
-def chunk_table(layout, path):
-    """[(seg index, v0, v1, [(byte_lo, byte_hi)])] for every chunk holding values of `path`."""
+def chunk_table(layout, path, cut=None):
+    """[(seg index, v0, v1, [(byte_lo, byte_hi)])] for every chunk holding values of `path`.
+    With `cut` the file ends there: the final chunk is clipped and holds only the values that are complete."""
     out = []
     v = 0
     for si, seg in enumerate(layout):
@@ -36,17 +37,32 @@ def chunk_table(layout, path):
             continue
         for ci in range(seg['chunks']):
             lo = seg['chunk_starts'][ci]
+            nv = n
             if seg['interleaved'] or seg['daqmx']:
                 ext = [(lo, lo + seg['chunk_size'])]
+                if cut is not None and cut < lo + seg['chunk_size']:
+                    if cut <= lo:
+                        continue
+                    roww = seg['chunk_size'] // n
+                    nv = (cut - lo) // roww
+                    ext = [(lo, cut)]
             else:
                 ext = [(a, b) for (c, a, b) in seg['extents'][path] if c == ci]
-            out.append((si, v, v + n, ext))
-            v += n
+                if cut is not None and ext and cut < ext[0][1]:
+                    if cut <= lo:
+                        continue
+                    a, b = ext[0]
+                    w = (b - a) // n
+                    nv = max(0, (cut - a) // w) if cut > a else 0
+                    ext = [(a, cut)] if cut > a else []
+            if nv or ext:
+                out.append((si, v, v + nv, ext))
+            v += nv
     return out
 
 
 def allowed_ranges(layout, table, lo, hi):
-    cs = [t for t in table if t[1] < hi and t[2] > lo]
+    cs = [t for t in table if t[1] < hi and t[2] > lo and t[2] > t[1]]
     if not cs:
         return []
     rng = []
@@ -73,10 +89,12 @@ def outside(log, rng):
     return bad
 
 
-def check_file(kind, opts, seed, collect=3):
+def check_file(kind, opts, seed, collect=3, cut=None):
     hist = F.f4_build(kind, opts, seed)
     data, _i, layout, ref = G.encode(hist, seed=seed)
-    table = chunk_table(layout, F.A)
+    if cut is not None:
+        data = data[:cut]
+    table = chunk_table(layout, F.A, cut)
     L = table[-1][2] if table else 0
     stream = RecordingStream(data)
     r = H.guarded(lambda: H.TdmsFile.open(stream))
@@ -122,16 +140,18 @@ def check_file(kind, opts, seed, collect=3):
                     judge('slice', ['slice', start, stop, step], lo, hi, lambda: ch[start:stop:step])
         # two-operation histories on a fresh file each: [i] then [j]
         for i in range(L):
-            for j in range(L):
+            for jj in list(range(L)) + [x - L for x in range(L)]:
+                j = jj if jj >= 0 else jj + L     # jj is how the index is spelled, j the element it addresses
                 s2 = RecordingStream(data)
                 t2 = H.TdmsFile.open(s2)
                 s2.reset()
                 try:
                     c2 = t2['g']['a']
-                    r = H.guarded(lambda: c2[i])
+                    ii = i if jj >= 0 else i - L    # both spellings of the first index are used as well
+                    r = H.guarded(lambda: c2[ii])
                     if r[0] != 'ok':
                         continue
-                    if j == 0:
+                    if jj == 0:
                         nops += 1
                         out = outside(s2.log, allowed_ranges(layout, table, i, i + 1))
                         if out:
@@ -139,20 +159,20 @@ def check_file(kind, opts, seed, collect=3):
                             if seen['index'] <= collect:
                                 bad.append(('index', ['index', i], 'reads within chunk of i', 'fetched outside: %r' % (out,)))
                     s2.reset()
-                    r = H.guarded(lambda: c2[j])
+                    r = H.guarded(lambda: c2[jj])
                     nops += 1
                     same = any(t[1] <= i < t[2] and t[1] <= j < t[2] for t in table)
                     if same:
                         if s2.log:
                             seen['cache'] = seen.get('cache', 0) + 1
                             if seen['cache'] <= collect:
-                                bad.append(('cache', ['index', i, 'then', j], 'no read (same chunk)', 'fetched %r' % (s2.log,)))
+                                bad.append(('cache', ['index', ii, 'then', jj], 'no read (same chunk)', 'fetched %r' % (s2.log,)))
                     else:
                         out = outside(s2.log, allowed_ranges(layout, table, j, j + 1))
                         if out:
                             seen['index2'] = seen.get('index2', 0) + 1
                             if seen['index2'] <= collect:
-                                bad.append(('index2', ['index', i, 'then', j], 'reads within chunk of j', 'fetched outside: %r' % (out,)))
+                                bad.append(('index2', ['index', ii, 'then', jj], 'reads within chunk of j', 'fetched outside: %r' % (out,)))
                 finally:
                     t2.close()
     finally:
@@ -163,6 +183,16 @@ def check_file(kind, opts, seed, collect=3):
 def run_file(item):
     kind, opts, seed = item
     nops, bad = check_file(kind, opts, seed)
+    cuts = []
+    if kind in ('int', 'intswap', 'ts', 'il') and isinstance(opts[-1], tuple) and opts[-1][1] >= 2:
+        # truncated final chunk (the chunk before it is complete): every value boundary of the target channel
+        from .c04 import cuts_for
+        layout = G.encode(F.f4_build(kind, opts, seed), seed=seed)[2]
+        cuts = [c for c in cuts_for(layout, 'quick')]
+    for cut in cuts:
+        n2, bad2 = check_file(kind, opts, seed, cut=cut)
+        nops += n2
+        bad += [(k, op + ['cut', cut], e, g) for (k, op, e, g) in bad2]
     res = {'counters': {'files': 1, 'ops': nops, 'nontrivial': 1 if nops > 10 else 0,
                         'multichunk': 1 if sum(o[1] for o in opts if isinstance(o, tuple)) > 1 else 0},
            'outcomes': {'clean' if not bad else 'over-read': 1}, 'violations': [], 'samples': []}
@@ -197,9 +227,10 @@ def run(ctx):
 
 def replay(case):
     opts = tuple(tuple(o) if isinstance(o, list) else o for o in case['opts'])
-    _n, bad = check_file(case['kind'], opts, case.get('seed', 0), collect=10 ** 6)
+    cut = case['op'][-1] if (len(case['op']) >= 2 and case['op'][-2] == 'cut') else None
+    _n, bad = check_file(case['kind'], opts, case.get('seed', 0), collect=10 ** 6, cut=cut)
     for (k, op, exp, got) in bad:
-        if op == case['op']:
+        if op == case['op'] or op + ['cut', cut] == case['op']:
             return True, exp, got
     if bad:
         return True, bad[0][2], bad[0][3] + ' (other operation: %r)' % (bad[0][1],)
